@@ -183,12 +183,16 @@ func capPreCount(swampObj swamp.Swamp, predicate func(treasureForCount) bool) (i
 	adapted := func(t treasure.Treasure) bool {
 		return predicate(t)
 	}
-	count := swampObj.CountMatchingTreasures(adapted)
 	// Cap-bearing patch flows serialise on swamp.capMu — but the swamp
 	// interface does not expose it directly. Acquire it via the
 	// public LockCapMu / UnlockCapMu accessors added on the swamp
 	// interface so the gateway can hold it for the whole batch.
+	//
+	// The lock must be taken before counting: a count taken outside
+	// capMu can be stale by the time the batch runs, letting two
+	// concurrent Cap-bearing batches both spend the same budget.
 	swampObj.LockCapMu()
+	count := swampObj.CountMatchingTreasures(adapted)
 	return count, swampObj.UnlockCapMu
 }
 
